@@ -401,8 +401,15 @@ def cyclic_edges(nodes, edges):
 # targets (what a ProcedureItem reports as active child names; calibrated on test_sgraph_routines)
 # ---------------------------------------------------------------------------------------------
 
-def proc_targets(ix, name, config, full_parse=True):
-    """lower-cased set of names Item.targets should report for a procedure item"""
+def proc_targets(ix, name, config, full_parse=True, true_scopes=False):
+    """
+    lower-cased set of names Item.targets should report for a procedure item.
+
+    ``true_scopes=False`` (calibrated on loki): a callee that is not imported by name is matched against the
+    disable/block keys in the scope of the *calling* item. ``true_scopes=True``: it is matched under the name of the
+    item it really is (ground truth 'target' of the statement: '' for free routines, the providing module for
+    procedures reached through an unqualified USE), which is what "non-blocked dependencies" means.
+    """
     m, r = ix.routine[name]
     c = item_config(config, name)
     exclude = [k.lower() for k in (c.get('disable', []) or [])] + [k.lower() for k in (c.get('block', []) or [])]
@@ -457,7 +464,7 @@ def proc_targets(ix, name, config, full_parse=True):
     for imp in r['imports']:
         imp_targets(imp)
     for fn in r['intfb']:
-        if not excluded(fn, import_map.get(fn, mn)):
+        if not excluded(fn, import_map.get(fn, '' if true_scopes else mn)):
             out.add(fn)
     if m is not None:
         own_types = {t['name'] for t in m['types']}
@@ -486,6 +493,6 @@ def proc_targets(ix, name, config, full_parse=True):
                 out.add('%'.join([s['var']] + s['path']))
         else:
             nm = s['name'].lower()
-            if not excluded2(nm, import_map.get(nm, mn)):
+            if not excluded2(nm, import_map.get(nm, s['target'].lower().split('#')[0] if true_scopes else mn)):
                 out.add(nm)
     return out, ambiguous
